@@ -33,6 +33,20 @@ int main(int argc, char **argv) {
             unsigned long long nz = len - hd.size() - tl.size();
             Ev e("CrcBig"); e.bytes("seed", sd.data(), sd.size()).str("len", t[2].c_str()).bytes("head", hd.data(), hd.size()).bytes("tail", tl.data(), tl.size()).i("nzh", (long long)(nz >> 16)).i("nzl", (long long)(nz & 0xffff)).le("ret", r, 4); e.end();
             return; }
+        if (t[0] == "CrcReuse") {   // CrcReuse fn seed(list LE) dataA dataB align : one buffer; the CRC of its contents A, then the buffer is overwritten in
+            // place with B (same length) and the CRC is taken again through the same pointer, length and seed - direct calls in one function,
+            // as a caller that reuses a packet buffer makes them
+            const std::string &fn = t[1]; auto sd = blist(t[2]); auto A = blist(t[3]), B = blist(t[4]); int off = num(t[5]);
+            unsigned long long seed = 0; for (size_t i = 0; i < sd.size(); ++i) seed |= (unsigned long long)sd[i] << (8 * i);
+            Blk b(A, off); unsigned char *p = b.p; size_t n = A.size(); unsigned long long r1 = 0, r2 = 0;
+            if (fn == "dallas") { r1 = igris_crc8(p, (uint8_t)n, (uint8_t)seed); memcpy(p, B.data(), n); r2 = igris_crc8(p, (uint8_t)n, (uint8_t)seed); }
+            else if (fn == "dallas_table") { r1 = igris_crc8_table(p, (uint8_t)n, (uint8_t)seed); memcpy(p, B.data(), n); r2 = igris_crc8_table(p, (uint8_t)n, (uint8_t)seed); }
+            else if (fn == "crc16") { r1 = igris_crc16(p, (uint16_t)n, (uint16_t)seed); memcpy(p, B.data(), n); r2 = igris_crc16(p, (uint16_t)n, (uint16_t)seed); }
+            else if (fn == "crc7") { r1 = igris_mmc_crc7(p, (uint8_t)n); memcpy(p, B.data(), n); r2 = igris_mmc_crc7(p, (uint8_t)n); }
+            else if (fn == "crc32") { r1 = igris_crc32(p, (uint32_t)n, (uint32_t)seed); memcpy(p, B.data(), n); r2 = igris_crc32(p, (uint32_t)n, (uint32_t)seed); }
+            else { fprintf(stderr, "bad fn\n"); exit(3); }
+            Ev e("CrcReuse"); e.str("fn", fn.c_str()).bytes("seed", sd.data(), sd.size()).bytes("data", A.data(), n).bytes("data2", B.data(), n).i("off", off).le("ret", r1, width(fn)).le("ret2", r2, width(fn)); e.end();
+            return; }
         // Crc fn seed(list LE) data align cut
         const std::string &fn = t[1]; auto sd = blist(t[2]); auto d = blist(t[3]); int off = num(t[4]); long cut = num(t[5]);
         unsigned long long seed = 0; for (size_t i = 0; i < sd.size(); ++i) seed |= (unsigned long long)sd[i] << (8 * i);
